@@ -154,6 +154,7 @@ def run(ctx):
     r.rule("R9.5", "CSS: each kept declaration is dominated by an allow-list test; url() stripped before the gauntlet", floor=4)
     element_gate(ctx)
     global_substitutions(ctx)
+    animation_values(ctx)
 
     at = repo.func(REL, "Filter.allowed_token")
     cfg = CFG(at.node)
@@ -432,11 +433,62 @@ def css(ctx):
         r.check("R9.5", insensitive, "url-strip-case-insensitive", "%s:%d" % (REL, first.lineno),
                 "the url() stripper %r is case-sensitive: `color: URL(1)` is not stripped, passes the gauntlet (letters and a "
                 "parenthesised number) and is kept in the sanitized style" % pat, detail={"pattern": pat, "flags": flags})
+        # completeness: whatever can stand between the parentheses and still pass the gauntlet (digits, commas, white space --
+        # the gauntlet's `\\([\\d,\\s]+\\)` alternative) must be removed by the stripper; evaluated on class sequences
+        import re as _re, itertools
+        fl = 0
+        for nm_, v_ in (("re.I", _re.I), ("IGNORECASE", _re.I), ("re.S", _re.S), ("re.X", _re.X)):
+            if nm_ in flags:
+                fl |= v_
+        try:
+            rx = _re.compile(pat, fl)
+        except _re.error:
+            rx = None
+        if rx is not None:
+            alphabet = ["1", ",", " ", "\t", "\u3000"]
+            survivors = []
+            for n_ in range(1, 4):
+                for combo in itertools.product(alphabet, repeat=n_):
+                    inner = "".join(combo)
+                    if not _re.fullmatch(r"[\d,\s]+", inner):
+                        continue
+                    for head in ("url(", "url (", "URL("):
+                        sample = "color: %s%s)" % (head, inner)
+                        out = rx.sub(" ", sample)
+                        if _re.search(r"url\s*\(", out, _re.I):
+                            survivors.append(sample)
+            r.check("R9.5", not survivors, "url-strip-complete", "%s:%d" % (REL, first.lineno),
+                    "the url() stripper %r leaves `%s` in place (%d of the sampled forms survive): the gauntlet accepts a parenthesised run of "
+                    "digits, commas and white space, so the declaration is kept and the sanitized style contains url(...)"
+                    % (pat, survivors[0] if survivors else "", len(survivors)), {"survivors": survivors[:6]}, detail={"sampled": "url( [digit , ws]{1,3} )"})
     else:
         r.idiom("R9.5", False, "url-strip-case-insensitive", f.where, "the url() stripper's pattern was not found")
     rets = [n for n in ast.walk(f.node) if isinstance(n, ast.Return)]
     r.idiom("R9.5", all(norm(x.value) in ("''", "' '.join(clean)") for x in rets), "css-returns", f.where,
             "sanitize_css returns something other than '' or the kept declarations")
+
+
+def animation_values(ctx):
+    """R9.7: SVG animation elements (<set>, <animate>, ...) assign the value of their to / from / by / values attribute to the
+    attribute named by attributeName -- including href / xlink:href.  If the default lists allow these elements and
+    attributes, the value attributes are URI-valued and have to be in the scheme-checked set."""
+    r = ctx.r
+    ce = ctx.ce
+    r.rule("R9.7", "attributes through which an allowed SVG animation element sets another attribute are scheme-checked", floor=1)
+    ns = ce.const("constants.py", "namespaces")
+    elems = set(ce.const(REL, "allowed_elements"))
+    attrs = set(ce.const(REL, "allowed_attributes"))
+    uri = set(ce.const(REL, "attr_val_is_uri"))
+    animators = sorted(n for (e_ns, n) in elems if e_ns == ns["svg"] and n in ("set", "animate", "animateTransform", "animateMotion", "animateColor"))
+    can_target = (None, "attributeName") in attrs
+    for a in ("to", "from", "by", "values"):
+        if not animators or not can_target or (None, a) not in attrs:
+            r.ok("R9.7", "animation-value::%s" % a, REL, detail={"attribute": a, "reachable": False})
+            continue
+        r.check("R9.7", (None, a) in uri, "animation-value::%s" % a, ce.provenance(ctx.repo.module(REL), "attr_val_is_uri"),
+                "<%s attributeName=\"xlink:href\" %s=\"javascript:...\"> passes the sanitizer: the animation elements %s and the attributes "
+                "attributeName and `%s` are allowed, but `%s` is not in attr_val_is_uri, so its scheme is never checked although a browser "
+                "assigns it to the link's href" % (animators[0], a, animators, a, a), {"attribute": a}, detail={"attribute": a, "animators": animators})
 
 
 def global_substitutions(ctx):
@@ -470,8 +522,9 @@ def thorough(ctx):
 def mutants():
     from ..selftest import TextMutant as T
     return [
-        T("url-strip-case-sensitive", REL, "\\s*\\)\\s*', re.I).sub(' ', style)", "\\s*\\)\\s*').sub(' ', style)", "R9.5"),
-        T("url-strip-empty-replacement", REL, "\\s*\\)\\s*', re.I).sub(' ', style)", "\\s*\\)\\s*', re.I).sub('', style)", "R9.5"),
+        T("url-strip-needs-nonspace", REL, "r'url\\s*\\([^)]*\\)\\s*'", "r'url\\s*\\(\\s*[^\\s)]+?\\s*\\)\\s*'", "R9.5"),
+        T("url-strip-case-sensitive", REL, "[^)]*\\)\\s*', re.I).sub(' ', style)", "[^)]*\\)\\s*').sub(' ', style)", "R9.5"),
+        T("url-strip-empty-replacement", REL, "[^)]*\\)\\s*', re.I).sub(' ', style)", "[^)]*\\)\\s*', re.I).sub('', style)", "R9.5"),
         T("svg-url-strip-once", REL, "                                         unescape(attrs[attr]))\n            if (token[\"name\"] in self.svg_allow_local_href",
           "                                         unescape(attrs[attr]), 1)\n            if (token[\"name\"] in self.svg_allow_local_href", "R9.6"),
         T("no-c1-strip", REL, "                val_unescaped = re.sub(\"[`\\x00-\\x20\\x7f-\\xa0\\\\s]+\", '',", "                val_unescaped = re.sub(\"[`\\x00-\\x20\\xa0\\\\s]+\", '',", "R9.3"),
@@ -491,7 +544,7 @@ def mutants():
         T("default-list-used", REL, "                    if uri.scheme not in self.allowed_protocols:", "                    if uri.scheme not in allowed_protocols:", "R9"),
         T("css-keep-unknown", REL, "            elif prop.lower() in self.allowed_svg_properties:\n                clean.append(prop + ': ' + value + ';')",
           "            elif prop.lower() in self.allowed_svg_properties:\n                clean.append(prop + ': ' + value + ';')\n            else:\n                clean.append(prop + ': ' + value + ';')", "R9.5"),
-        T("css-url-after", REL, "        style = re.compile(r'url\\s*\\(\\s*[^\\s)]+?\\s*\\)\\s*', re.I).sub(' ', style)\n\n        # gauntlet\n", "        # gauntlet\n", "R9.5"),
+        T("css-url-after", REL, "        style = re.compile(r'url\\s*\\([^)]*\\)\\s*', re.I).sub(' ', style)\n\n        # gauntlet\n", "        # gauntlet\n", "R9.5"),
     ]
 
 
